@@ -438,7 +438,12 @@ func processFetchForMessage(deps ServerDeps, conn net.Conn, messageID, uid int64
 				prefixLen = len("BODY.PEEK[HEADER.FIELDS (")
 			}
 
-			fieldsStr := items[start+prefixLen:]
+			// A truncated item such as BODY[HEADER.FIELDS] has no field list:
+			// the default header set is used.
+			fieldsStr := ""
+			if start+prefixLen <= len(items) {
+				fieldsStr = items[start+prefixLen:]
+			}
 			closeParen := strings.Index(fieldsStr, ")")
 			if closeParen != -1 {
 				fieldsStr = fieldsStr[:closeParen]
